@@ -312,6 +312,13 @@ class Run:
             _tls.rec = None
         return self
 
+    def user_raised(self) -> bool:
+        """did a user callable raise during this run?"""
+        rec = self.rec
+        vals = list(rec.F.values()) + list(rec.G.values()) + [e.get("ret", "") for e in rec.cb] \
+            + [e.get("ret", "") for e in rec.upd] + [rec.sc or "", rec.ft or "", rec.gt or ""]
+        return any(isinstance(v, str) and v.startswith("!") and v != "!UNFINISHED" for v in vals)
+
     # ---------------------------------------------------------------- protocol
     def lines(self) -> Optional[List[str]]:
         """driver input for this run (None if the trace cannot be keyed unambiguously)"""
@@ -445,7 +452,7 @@ class Run:
             gprev = e["g0"]
             for c in e["dc"]:
                 # magnitude against which the BLAS/sequential dot-product difference is judged
-                scale = float(np.sum(np.abs(np.asarray(gprev, dtype=float) * e["d"])))
+                scale = float(np.nansum(np.abs(np.asarray(gprev, dtype=float) * e["d"])))
                 edc.append((c, scale))
                 xt = np.clip(e["x0"] + c["out"][0] * e["d"], e["lb"], e["ub"])
                 k = pkey(xt)
